@@ -62,6 +62,8 @@ def _ops(draw, n, ncontent, lo, hi):
                   st.integers(0, 2)).map(list),
         st.just(['purge']),
         st.just(['reopen']),
+        st.tuples(st.just('updf'), t, run, a, cidx, st.integers(0, 14),
+                  st.sampled_from(['request', 'reply'])).map(list),
     )
     return draw(st.lists(op, min_size=lo, max_size=hi))
 
@@ -93,11 +95,25 @@ def _crash(draw):
     }
 
 
-def do_update(s, op, case, out, where):
+def do_update(s, op, case, out, where, fault=None):
     cont = [case['contents'][c] for c in op[4]]
     seen_before = set(s.blobs)
     stored = {v[1] for v in s.model.values()}
-    reported, before, expect = s.update(op[1], op[2], op[3], cont)
+    if fault is not None:
+        # one round trip to the database server breaks during this update:
+        # the update either fails loudly (the job is then run again, which
+        # is judged like any update) or its report is right as it stands
+        res, fired = s.update_with_conn_fault(op[1], op[2], op[3], cont,
+                                              fault[0], fault[1])
+        if fired:
+            out.nontrivial = True
+            out.label(f'connection-fault-{fault[1]}-lost')
+        if res is None:
+            out.label('update-failed-loudly-and-was-run-again')
+            return do_update(s, op, case, out, where + ' (run again)')
+        reported, before, expect = res
+    else:
+        reported, before, expect = s.update(op[1], op[2], op[3], cont)
     rep = {name: isnew for name, isnew in reported}
     prime = s.prime()
     batch = set()
@@ -135,6 +151,8 @@ def run_ops(s, ops, case, out):
         kind = op[0]
         if kind == 'upd':
             do_update(s, op, case, out, where)
+        elif kind == 'updf':
+            do_update(s, op, case, out, where, fault=(op[5], op[6]))
         elif kind == 'rm':
             _, run, t, i, j, k = op
             a = s.pool[i]
@@ -226,11 +244,32 @@ class Injector:
             hit('move:after')
             return r
 
+        def copy_like(real):
+            # a copy is not atomic: the process may die with the destination
+            # created and only partly written
+            def copy(a, b, *args, **kw):
+                hit('copy:before')
+                with open(a, 'rb') as f:
+                    raw = f.read()
+                dst = b
+                if _os.path.isdir(dst):
+                    dst = _os.path.join(dst, _os.path.basename(a))
+                with open(dst, 'wb') as f:
+                    f.write(raw[: len(raw) // 2])
+                hit('copy:mid')
+                r = real(a, b, *args, **kw)
+                hit('copy:after')
+                return r
+            return copy
+
         path = store._Proxy(_os.path, {'exists': exists})
         dbu.os = store._Proxy(_os, {'chmod': chmod, 'unlink': unlink,
                                     'path': path})
         dbu.pickle = store._Proxy(_pickle, {'dump': dump})
-        dbu.shutil = store._Proxy(_shutil, {'move': move})
+        dbu.shutil = store._Proxy(_shutil, {
+            'move': move, 'copyfile': copy_like(_shutil.copyfile),
+            'copy': copy_like(_shutil.copy),
+            'copy2': copy_like(_shutil.copy2)})
         dbu.tempfile = store._Proxy(_tempfile, {'mkstemp': mkstemp})
         dbu.subprocess = store._Proxy(real_sub, {'check_output': check_output})
         real_send = comms.Worker._send
